@@ -85,7 +85,7 @@ def o04_1(tier):
                         ctx.ensure(ctx.zero(L[row][pos]), f"row {row}: zero for cell {cid}")
                 ctx.ensure(ctx.close(R[row], tens[beid] * kap[beid]), f"row {row}: rhs = tension x total curvature")
         return h
-    out = [(f"{s},k={k}", mk(s, k)) for s in ("tri_star", "double_y", "border_fan", "tri_star_ear") for k in ((1,) if tier == "quick" else (0, 1, 3))]
+    out = [(f"{s},k={k}", mk(s, k)) for s in ("tri_star", "double_y", "border_fan", "tri_star_ear", "tri_star_two_ears") for k in ((1,) if tier == "quick" else (0, 1, 3))]
     out += [(f"{s}~v{v},k=1", mk(f"{s}~v{v}", 1)) for s in ("tri_star", "double_y", "tri_star_ear") for v in ((1, 2) if tier == "quick" else (1, 2, 3))]
     return out
 
@@ -136,7 +136,7 @@ def o04_7(tier):
             for col, cid in enumerate(cids):
                 ctx.ensure(ctx.eq(ctx.get(m.c[cid], "pressure"), sol[col]), f"cell {cid} carries its own pressure")
         return h
-    out = [(f"{s},k=1", mk(s, 1, False)) for s in ("tri_star", "border_fan", "tri_star_ear")]
+    out = [(f"{s},k=1", mk(s, 1, False)) for s in ("tri_star", "border_fan", "tri_star_ear", "tri_star_two_ears")]
     out.append(("tri_star,k=1,singular", mk("tri_star", 1, True)))
     if tier != "quick":
         out.append(("double_y,k=1", mk("double_y", 1, False)))
